@@ -1,4 +1,5 @@
 import SSV.Proofs.RouterSound
+import SSV.Proofs.PortSetParse
 /-
 C09 helper lemmas: sections of `build` that do not involve addresses (network, servers, users, ports).
 -/
@@ -95,81 +96,93 @@ theorem addPorts_spec (bad : BuildErr) : ∀ (ports : List Nat) (s s' : PortSet)
         · subst e; exact hx.1
         · exact z y hy
 
-theorem addItems_spec (bad : BuildErr) : ∀ (items : List PortItem) (s s' : PortSet), s.WF →
-    addItems bad s items = .ok s' →
-    s'.WF ∧ (∀ q, s'.mem q = true ↔ ((∃ it ∈ items, PortItem.covers it q = true) ∨ s.mem q = true)) ∧
-      (∀ it ∈ items, PortItem.covers it 0 = false) := by
-  intro items
-  induction items with
+/-- `Parse` on the table: every piece was well-formed, and the table gains exactly what the pieces denote -/
+theorem addPieces_spec (bad : BuildErr) : ∀ (pieces : List (List UInt8)) (s s' : PortSet), s.WF →
+    addPieces bad s pieces = .ok s' →
+    s'.WF ∧ (∀ q, s'.mem q = true ↔ ((∃ pc ∈ pieces, pieceCovers pc q = true) ∨ s.mem q = true)) ∧
+      (∀ pc ∈ pieces, pieceCovers pc 0 = false) ∧ (∀ pc ∈ pieces, SSV.PortSet.parseItem pc ≠ none) := by
+  intro pieces
+  induction pieces with
   | nil =>
     intro s s' hs h
-    simp only [addItems] at h; cases h
-    exact ⟨hs, by simp, by simp⟩
-  | cons it its ih =>
+    simp only [addPieces] at h; cases h
+    exact ⟨hs, by simp, by simp, by simp⟩
+  | cons pc rest ih =>
     intro s s' hs h
-    cases it with
-    | single x =>
-      simp only [addItems] at h
-      split at h
-      · cases h
-      · rename_i hx
-        simp only [Bool.or_eq_true, decide_eq_true_eq, not_or] at hx
-        obtain ⟨w, m, z⟩ := ih (s.add x) s' (PortSet.wf_add s hs x) h
-        refine ⟨w, ?_, ?_⟩
+    simp only [addPieces] at h
+    cases hp : SSV.PortSet.parseItem pc with
+    | none => rw [hp] at h; cases h
+    | some it =>
+      have hv := SSV.PortSet.parseItem_valid hp
+      rw [hp] at h
+      cases it with
+      | port x =>
+        simp only at h
+        simp only [SSV.PortSet.Item.Valid] at hv
+        obtain ⟨w, m, z, pn⟩ := ih (s.add x) s' (PortSet.wf_add s hs x) h
+        have hc : ∀ q, pieceCovers pc q = (x == q) := by intro q; simp [pieceCovers, hp, itemCovers]
+        refine ⟨w, ?_, ?_, ?_⟩
         · intro q
-          rw [m q, PortSet.mem_add s hs x q (by omega)]
+          rw [m q, PortSet.mem_add s hs x q (by simp [portSpace]; omega)]
           constructor
           · rintro (⟨i, hi, c⟩ | a | a)
             · exact Or.inl ⟨i, List.mem_cons_of_mem _ hi, c⟩
-            · exact Or.inl ⟨.single x, List.mem_cons_self, by simp [PortItem.covers, a]⟩
+            · exact Or.inl ⟨pc, List.mem_cons_self, by rw [hc]; simp [a]⟩
             · exact Or.inr a
           · rintro (⟨i, hi, c⟩ | a)
             · rcases List.mem_cons.mp hi with e | hi
-              · subst e; simp [PortItem.covers] at c; exact Or.inr (Or.inl c.symm)
+              · subst e; rw [hc] at c; simp at c; exact Or.inr (Or.inl c.symm)
               · exact Or.inl ⟨i, hi, c⟩
             · exact Or.inr (Or.inr a)
         · intro y hy
           rcases List.mem_cons.mp hy with e | hy
-          · subst e; simp [PortItem.covers]; exact hx.1
+          · subst e; rw [hc]; simp; omega
           · exact z y hy
-    | range a b =>
-      simp only [addItems] at h
-      split at h
-      · cases h
-      · rename_i hx
-        simp only [Bool.or_eq_true, decide_eq_true_eq, not_or] at hx
-        obtain ⟨⟨⟨h1, h2⟩, h3⟩, h4⟩ := hx
-        obtain ⟨w, m, z⟩ := ih (s.addRun a (b + 1 - a)) s' (PortSet.wf_addRun s hs a _) h
-        refine ⟨w, ?_, ?_⟩
+        · intro y hy
+          rcases List.mem_cons.mp hy with e | hy
+          · subst e; rw [hp]; simp
+          · exact pn y hy
+      | range a b =>
+        simp only at h
+        simp only [SSV.PortSet.Item.Valid] at hv
+        obtain ⟨h1, h2, h3⟩ := hv
+        obtain ⟨w, m, z, pn⟩ := ih (s.addRun a (b + 1 - a)) s' (PortSet.wf_addRun s hs a _) h
+        have hc : ∀ q, pieceCovers pc q = (decide (a ≤ q) && decide (q ≤ b)) := by
+          intro q; simp [pieceCovers, hp, itemCovers]
+        refine ⟨w, ?_, ?_, ?_⟩
         · intro q
-          rw [m q, PortSet.mem_addRun s hs a (b + 1 - a) q (by omega)]
+          rw [m q, PortSet.mem_addRun s hs a (b + 1 - a) q (by simp [portSpace]; omega)]
           constructor
           · rintro (⟨i, hi, c⟩ | ⟨c1, c2⟩ | c)
             · exact Or.inl ⟨i, List.mem_cons_of_mem _ hi, c⟩
-            · refine Or.inl ⟨.range a b, List.mem_cons_self, ?_⟩
-              simp [PortItem.covers]; omega
+            · refine Or.inl ⟨pc, List.mem_cons_self, ?_⟩
+              rw [hc]; simp; omega
             · exact Or.inr c
           · rintro (⟨i, hi, c⟩ | c)
             · rcases List.mem_cons.mp hi with e | hi
-              · subst e; simp [PortItem.covers] at c; exact Or.inr (Or.inl ⟨c.1, by omega⟩)
+              · subst e; rw [hc] at c; simp at c; exact Or.inr (Or.inl ⟨c.1, by omega⟩)
               · exact Or.inl ⟨i, hi, c⟩
             · exact Or.inr (Or.inr c)
         · intro y hy
           rcases List.mem_cons.mp hy with e | hy
-          · subst e; simp [PortItem.covers]; omega
+          · subst e; rw [hc]; simp; omega
           · exact z y hy
+        · intro y hy
+          rcases List.mem_cons.mp hy with e | hy
+          · subst e; rw [hp]; simp
+          · exact pn y hy
 
 /-- the table built from a `ports` list and a `portRanges` string holds exactly the denoted ports; bit 0 is clear -/
 theorem portTable_spec (init : PortSet) (hw : init.WF) (hi : ∀ q, init.mem q = false)
-    (b1 b2 : BuildErr) (ports : List Nat) (items : List PortItem) (s1 s2 : PortSet)
-    (h1 : addPorts b1 init ports = .ok s1) (h2 : addItems b2 s1 items = .ok s2) :
-    (∀ q, s2.mem q = portsDenote ports items q) ∧ s2.mem 0 = false := by
+    (b1 b2 : BuildErr) (ports : List Nat) (str : List UInt8) (s1 s2 : PortSet)
+    (h1 : addPorts b1 init ports = .ok s1) (h2 : addPieces b2 s1 (SSV.PortSet.items str) = .ok s2) :
+    (∀ q, s2.mem q = portsDenote ports str q) ∧ s2.mem 0 = false := by
   obtain ⟨w1, m1, z1⟩ := addPorts_spec b1 ports init s1 hw h1
-  obtain ⟨_, m2, z2⟩ := addItems_spec b2 items s1 s2 w1 h2
-  have key : ∀ q, s2.mem q = portsDenote ports items q := by
+  obtain ⟨_, m2, z2, _⟩ := addPieces_spec b2 _ s1 s2 w1 h2
+  have key : ∀ q, s2.mem q = portsDenote ports str q := by
     intro q
     rw [Bool.eq_iff_iff, m2 q, m1 q, hi]
-    simp only [portsDenote, Bool.or_eq_true, List.contains_iff_mem, List.any_eq_true]
+    simp only [portsDenote, rangesDenote, Bool.or_eq_true, List.contains_iff_mem, List.any_eq_true]
     constructor
     · rintro (a | a | a)
       · exact Or.inr a
@@ -180,7 +193,7 @@ theorem portTable_spec (init : PortSet) (hw : init.WF) (hi : ∀ q, init.mem q =
       · exact Or.inl a
   refine ⟨key, ?_⟩
   rw [key 0]
-  simp only [portsDenote, Bool.or_eq_false_iff]
+  simp only [portsDenote, rangesDenote, Bool.or_eq_false_iff]
   constructor
   · rw [Bool.eq_false_iff]
     intro h
@@ -218,15 +231,15 @@ theorem portSetMeet_guarded (s : PortSet) (hs0 : s.mem 0 = false) (port : Nat) :
 /-- the port block: whichever representation is chosen, the criterion decides "port ∈ denoted set" (xor invert) -/
 theorem portsSection_sound (p : Params) (q : Req) (port : Nat) (hq : port < portSpace)
     (init : PortSet) (hw : init.WF) (hi : ∀ x, init.mem x = false)
-    (ports : List Nat) (items : List PortItem) (invert : Bool) (b1 b2 pl : BuildErr)
+    (ports : List Nat) (str : List UInt8) (invert : Bool) (b1 b2 pl : BuildErr)
     (single : Nat → Crit) (ranges : List (Nat × Nat) → Crit) (set : PortSet → Crit)
     (hsingle : ∀ x, meet p q (single x) = R.ofBool (x == port))
     (hranges : ∀ rs, meet p q (ranges rs) = R.ofBool (rangesContain rs port))
     (hset : ∀ s, meet p q (set s) = portSetMeet true s port)
     (cs : List Crit)
-    (h : portsSection init ports items invert b1 b2 pl 1 65535 16 single ranges set = .ok cs) :
+    (h : portsSection init ports str invert b1 b2 pl 1 65535 16 single ranges set = .ok cs) :
     meetAll p q cs =
-      R.ofV (if ports.isEmpty && items.isEmpty then .t else (V.ofBool (portsDenote ports items port)).inv invert) := by
+      R.ofV (if ports.isEmpty && str.isEmpty then .t else (V.ofBool (portsDenote ports str port)).inv invert) := by
   unfold portsSection at h
   split at h
   · rename_i e; cases h; simp [e, meetAll_nil]
